@@ -50,6 +50,7 @@ class FakeBackend:
         self.crashed = None
         self.page_size = None
         self.timers_in_invocation = False
+        self.fired_in_invocation = set()   # B3': operations whose timer fired while an invocation was running
         self.hooks = None
 
     # ------------------------------------------------------------------ helpers
@@ -317,9 +318,11 @@ class FakeBackend:
             if r.type == "WAIT" and r.status == "STARTED" and r.wait_until is not None and r.wait_until <= now:
                 r.status = "SUCCEEDED"
                 self.changed_since_call.add(i)
+                self.fired_in_invocation.add(i)
             elif r.type == "STEP" and r.status == "PENDING" and r.next_attempt is not None and r.next_attempt <= now:
                 r.status = "READY"
                 self.changed_since_call.add(i)
+                self.fired_in_invocation.add(i)
 
     def fire(self, kind, op_id, outcome=None):
         r = self.ops[op_id]
